@@ -945,6 +945,17 @@ class _Canon(ast.NodeTransformer):
             n.test = ast.copy_location(ast.Compare(left=n.test.left, ops=[_NEG[type(n.test.ops[0])]()], comparators=n.test.comparators), n.test)
             n.body, n.orelse = n.orelse, n.body
             self.count += 1
+        # P28: if c: a = A1; b = B1  else: a = A2; b = B2   ->   a = A1 if c else A2; b = B1 if c else B2
+        # (both branches are straight lists of assignments to the same names in the same order; c does not read them)
+        if len(n.body) >= 2 and len(n.body) == len(n.orelse) and all(isinstance(x, ast.Assign) and len(x.targets) == 1 and isinstance(x.targets[0], ast.Name) for x in n.body + n.orelse):
+            ta, tb = [x.targets[0].id for x in n.body], [x.targets[0].id for x in n.orelse]
+            reads = {x.id for x in ast.walk(n.test) if isinstance(x, ast.Name)}
+            if ta == tb and len(set(ta)) == len(ta) and not (set(ta) & reads) and _is_pure(n.test):
+                self.count += 1
+                out = []
+                for a_, b_ in zip(n.body, n.orelse):
+                    out.append(ast.copy_location(ast.Assign(targets=[a_.targets[0]], value=ast.copy_location(ast.IfExp(test=copy.deepcopy(n.test), body=a_.value, orelse=b_.value), n)), a_))
+                return out
         if len(n.body) == 1 and len(n.orelse) == 1 and isinstance(n.body[0], ast.Assign) and isinstance(n.orelse[0], ast.Assign):
             a, b = n.body[0], n.orelse[0]
             if len(a.targets) == 1 and len(b.targets) == 1 and _same_target(a.targets[0], b.targets[0]) and isinstance(a.targets[0], (ast.Name, ast.Attribute)):
